@@ -5,6 +5,8 @@ Open Scope N_scope.
 
 (* Two renderings of one token sequence that differ only in blanks, tabs, line and block comments,
    blank or comment-only lines at line breaks and the final newline hand the parser the same tokens. *)
+From Verif Require Import Facts.C12Facts.
+
 Theorem C12_tokens_layout_independent : forall l1 l2,
   items_ok l1 [] = true -> items_ok l2 [] = true ->
   replace_crlf (render l1) = render l1 -> replace_crlf (render l2) = render l2 ->
@@ -34,7 +36,7 @@ Print Assumptions C12_crlf.
 Theorem C12_script_depends_on_tokens_only : forall E path fe1 fe2 t,
   parser_input (tokenize (fe_content fe1)) = parser_input (tokenize (fe_content fe2)) ->
   transpile_entry E path fe1 t = transpile_entry E path fe2 t.
-Proof. intros E path fe1 fe2 t H. unfold transpile_entry. rewrite (parse_entry_tokens E _ _ _ path fe1 fe2 H). reflexivity. Qed.
+Proof. exact C12_script_depends_on_tokens_only_proof. Qed.
 Print Assumptions C12_script_depends_on_tokens_only.
 
 (* Non-vacuity: two layouts of one program. *)
